@@ -21,6 +21,7 @@ ap.add_argument('--seed', default='1')
 ap.add_argument('--scale', default=None)
 ap.add_argument('--sub', default=None)
 ap.add_argument('--workers', default=None)
+ap.add_argument('--fail-fast', action='store_true')
 a = ap.parse_args()
 
 verif = os.path.dirname(os.path.dirname(os.path.abspath(__file__)))
@@ -45,6 +46,8 @@ try:
         cmd += ['--sub', a.sub]
     if a.workers:
         cmd += ['--workers', a.workers]
+    if a.fail_fast:
+        cmd += ['--fail-fast']
     r = subprocess.run(cmd, capture_output=True, text=True, env=env, cwd=verif)
     lines = (r.stdout + r.stderr).strip().splitlines()
     for l in lines[-12:]:
